@@ -135,3 +135,11 @@ Theorem C16_monitor_sug_restart_sound : forall c acts,
   WorldMon.sug_restart_walk c false (WorldC.project (init c)) (MonSound.msteps (init c) acts) = true.
 Proof. exact WorldSugRestart.sug_restart_monitor_sound. Qed.
 Print Assumptions C16_monitor_sug_restart_sound.
+
+(* The raise clause of the monitor: a raise of maxTrialCount that the update rule admits (the experiment runs, or it succeeded by
+   reaching max trials under LongRunning / FromVolume -- however often it was restarted before) is honoured, at every step of
+   every history of the model. *)
+Theorem C16_monitor_raise_sound : forall w acts,
+  WorldMon.all_steps (WorldMon.raise_step (w_cfg w)) (WorldC.project w) (MonSound.msteps w acts) = true.
+Proof. exact WorldSugRestart.raise_steps_model. Qed.
+Print Assumptions C16_monitor_raise_sound.
